@@ -225,6 +225,14 @@ def check(run) -> None:
         sverd = judge(srecs, sfile, run, "host API, keyword arguments spelled `name = value`")
         report(run, cals, srecs, sverd)
     run.cov["shapes_with_spaced_keywords"] = len(srecs)
+    # 3d. list-valued arguments passed by name, the list mutated in place after the call
+    ljobs = [(c, sh, "l" + rid[1:], 3) for (c, sh, rid) in jobs if rid in ok_alone and cals[c].form == "stmt" and "." in cals[c].cid
+             and any(isinstance(lit.py, list) for lit in cals[c].lits)]
+    lrecs = B.records(ljobs, workers=8)
+    if lrecs:
+        lverd = judge(lrecs, sfile, run, "host API, list arguments by name, mutated after the call")
+        report(run, cals, lrecs, lverd)
+    run.cov["shapes_with_lists_by_name"] = len(lrecs)
     # vacuity guards: every failure reason and every action of the machine was exercised on the real signatures
     reasons = Counter(v["reason"] for v in verdicts.values() if not v["legal"])
     if set(reasons) != {"too-many-positionals", "duplicate", "unknown-keyword", "missing-required"}:
